@@ -34,11 +34,11 @@ type vNode struct {
 }
 
 type vGen struct {
-	budget int
-	next   int
-	nconds int
+	budget  int
+	next    int
+	nconds  int
 	nwhiles int
-	whileN []int
+	whileN  []int
 }
 
 func (g *vGen) block(depth int) []*vNode {
